@@ -19,7 +19,7 @@ Lemma elems_cases : forall e x,
            match x with VList LIface l | VList LKnown l => f l | _ => d end = d).
 Proof.
   intros e x. destruct x; try (right; split; reflexivity).
-  destruct k; [left; eauto | left; eauto | right; split; reflexivity].
+  destruct k; [left; eauto | left; eauto | right; split; reflexivity | right; split; reflexivity].
 Qed.
 
 (* the parts of a comparison *)
